@@ -1,6 +1,7 @@
 """C10: auxiliary data is a transparent, authenticated cache and nothing more."""
 from .common import *
 import hashsigs
+from check import canon as canon_
 
 RULE = ("keygen and sign with aux in {none, all zero of many lengths, previously filled, every single-bit flip (quick: a stride) of a filled buffer, truncated, padded, "
         "00||garbage, in-use marker||garbage, filled for another seed, filled for the same seed with other parameters} x hashes; oracle: key pair / signature / successor "
@@ -171,6 +172,62 @@ def run(ctx):
             ctx.extra["aux_level_sets_vs_hash_sigs"] = level_sets
         finally:
             hs.close()
+    # layout arithmetic for tall top trees and long buffers, without generating trees (hook: the real get_aux_data_len /
+    # optimal_aux_level / store_aux_marker / expand_aux_data on a fresh buffer): shrunk length, level word, per-level byte
+    # lengths and the MAC field length must equal the model's and be self-consistent
+    shape_cases = []
+    for H in hashes:
+        n = HASHES[H]
+        for t in (1, 5, 6, 7, 8, 9):
+            h0 = LMS_H[t]
+            lens = {1, 4 + n - 1, 4 + n, 4 + n + 2 * n, 1000, 65535, 65536, 65571, 65572, 70000, 131091, 131092, 140000, 200000, 2000000}
+            for lvl in range(h0, 0, -2):
+                if (n << lvl) < 3000000:
+                    lens.update({4 + n + (n << lvl) - 1, 4 + n + (n << lvl)})
+            for L in sorted(lens)[: (14 if ctx.tier == "quick" else 60)]:
+                shape_cases.append(Case("auxshape H=%s lms=%d len=%d" % (H, t, L), "auxshape/h%d" % h0, {"n": n, "h0": h0, "L": L}))
+    for c, a, b in ctx.both(shape_cases, None):
+        if a.startswith("panic"):
+            ctx.fail("aux layout computation panicked", [c.line], a, "ok ...")
+            continue
+        f = fields(a)
+        n, h0, L = c.meta["n"], c.meta["h0"], c.meta["L"]
+        layers = [] if f.get("layers") in (None, "-") else [tuple(map(int, x.split(":"))) for x in f["layers"].split(",")]
+        if layers:
+            total = 4 + sum(sz for _, sz in layers) + n
+            if any(sz != (n << lvl) for lvl, sz in layers) or int(f["mac"]) != n or int(f["len"]) != total or int(f["len"]) > L:
+                ctx.fail("fresh aux buffer layout is inconsistent (level sizes n*2^level, MAC of n bytes, shrunk length = 4 + levels + n)", [c.line], a, "consistent hash-sigs layout")
+    # buffers as a previous *signing* call leaves them (level word, some nodes, no MAC), reused by the same key and by a key with
+    # another seed; plus one tall top tree with a long buffer (library only: the model would take too long for an H15 tree)
+    for H in hashes[:2]:
+        n = HASHES[H]
+        ps = [(2, 5), (3, 1)]
+        seedA, seedB = rng.bytes_(n), rng.bytes_(n)
+        first = ctx.both([Case(sign_line(H, sk_blob(H, ps, seedA, 3), b"first", "accept", bytes(700)), "reuse/sign-initialises-buffer")], None)[0][1]
+        left = unhx(fields(first).get("aux", "-"))
+        follow = []
+        for sd, tag in ((seedA, "same-key"), (seedB, "other-seed")):
+            follow.append(Case(sign_line(H, sk_blob(H, ps, sd, 9), b"second", "accept", left), "reuse/buffer-left-by-sign/" + tag, {"ref": sign_line(H, sk_blob(H, ps, sd, 9), b"second")}))
+            follow.append(Case(keygen_line(H, ps, sd, left), "reuse/buffer-left-by-sign/keygen-" + tag, {"ref": keygen_line(H, ps, sd)}))
+        refs = {c.line: a for c, a, b in ctx.both([Case(c.meta["ref"], "reuse/ref") for c in follow], None)}
+        for c, a, b in ctx.both(follow, None):
+            r = refs[c.meta["ref"]]
+            fa, fr = fields(a), fields(r)
+            if cls_of(a) != cls_of(r) or fa.get("sig") != fr.get("sig") or fa.get("cb") != fr.get("cb") or fa.get("vk") != fr.get("vk"):
+                ctx.fail("a buffer left behind by an earlier signing call changes the result (%s)" % c.cls, [c.line[:400]], a[:120], r[:120])
+    tall = [Case(keygen_line("S32", [(2, 7)], bytes(range(32)), bytes(70000)), "keygen/h15-long-buffer"), Case(keygen_line("S32", [(2, 7)], bytes(range(32))), "keygen/h15-ref")]
+    ta = [canon_(x) for x in ctx.hz.batch([c.line for c in tall])]
+    ctx.evaluations += 2
+    ctx.classes[("keygen/h15-long-buffer", cls_of(ta[0]))] = 1
+    if not ta[0].startswith("ok") or fields(ta[0]).get("vk") != fields(ta[1]).get("vk"):
+        ctx.fail("keygen with a long aux buffer for a height-15 top tree differs from keygen without aux data", [tall[0].line[:200]], ta[0][:120], "vk=" + str(fields(ta[1]).get("vk")))
+    else:
+        aux = unhx(fields(ta[0])["aux"])
+        if hmac_ref("S32", bytes(range(32)), aux[:-32]) != aux[-32:]:
+            ctx.fail("MAC written for a height-15 top tree is not the keyed MAC over level word || cached levels", [tall[0].line[:200]], aux[-32:].hex(), "")
+        re = canon_(ctx.hz.batch([keygen_line("S32", [(2, 7)], bytes(range(32)), aux)])[0])
+        if fields(re).get("vk") != fields(ta[1]).get("vk"):
+            ctx.fail("the aux data written for a height-15 top tree is not usable afterwards", [tall[0].line[:200]], re[:100], "same key")
     # known finding: same seed, other parameters
     cases = []
     for H in hashes[:2]:
